@@ -305,6 +305,10 @@ class Task:
             return "ext_nan"
         if g.sw["ext_solver"] and u < 0.5:
             return "ext" if rng.random() < 0.75 else "ext_mark"
+        if "solver_raise" in f and u < 0.56:
+            return "def_raise"
+        if g.sw["ext_solver"] and u < 0.6:
+            return "def_record"
         return None
 
 
